@@ -593,6 +593,31 @@ func ruleRestValueConstant(c *Ctx, dv *dev) {
 			}
 		}
 	}
+	// the same in a shaping helper that returns from inside the branches: `return 0` under a comparison with the deadzone
+	for _, b := range hostBlocks {
+		if b.Parent() == fn {
+			continue
+		}
+		ret, ok := b.Instrs[len(b.Instrs)-1].(*ssa.Return)
+		if !ok || len(ret.Results) != 1 {
+			continue
+		}
+		k, isK := ret.Results[0].(*ssa.Const)
+		if !isK || k.Value == nil || constant.Sign(k.Value) != 0 {
+			continue
+		}
+		if bt, isB := k.Type().Underlying().(*types.Basic); !isB || bt.Info()&types.IsFloat == 0 {
+			continue
+		}
+		for _, a := range NewFnViewBound(c.P, b.Parent(), fn, 0).GuardsAt(b) {
+			s := a.Cond.String()
+			if a.Cond.Op == "binop" && (a.Cond.Aux == "<" || a.Cond.Aux == ">") && strings.Contains(strings.ToLower(s), "deadzone") {
+				n++
+				c.OK("R6.2", fmt.Sprintf("device.handleABSEvent/in-deadzone-rest-value#%d", n), c.P.Pos(ret.Pos()), "inside the deadzone the shaping helper returns the constant 0")
+				break
+			}
+		}
+	}
 	if n < 2 {
 		c.Bad("R6.2", "device.handleABSEvent/in-deadzone-rest-value", c.P.Pos(fn.Pos()), fmt.Sprintf("found %d in-deadzone branches assigning the literal 0 (expected one per sign): positions inside the deadzone may transmit a computed value instead of exactly the rest value", n))
 	}
@@ -611,7 +636,7 @@ func ruleNormalisation(c *Ctx, dv *dev, rule string) {
 	hviews := map[*ssa.Function]*FnView{}
 	for _, h := range dv.hostsOf(fn) {
 		hostBlocks = append(hostBlocks, h.Blocks...)
-		hviews[h] = NewFnView(c.P, h)
+		hviews[h] = NewFnViewBound(c.P, h, fn, 0)
 	}
 	for _, b := range hostBlocks {
 		vw := hviews[b.Parent()]
@@ -1271,6 +1296,16 @@ func rangeLeaves(v ssa.Value) []ssa.Value {
 			}
 		case *ssa.Extract:
 			rec(x.Tuple, depth+1)
+		case *ssa.Parameter:
+			// the range handed to a helper (axis.Normalize(raw, info.Minimum, info.Maximum)): what its call sites pass
+			if sites, ok := staticCallSitesAny(x.Parent()); ok {
+				idx := paramIndex(x)
+				for _, cs := range sites {
+					if idx >= 0 && idx < len(cs.Common().Args) {
+						rec(cs.Common().Args[idx], depth+1)
+					}
+				}
+			}
 		case *ssa.Lookup:
 			out = append(out, x)
 		case *ssa.Alloc:
@@ -1284,5 +1319,53 @@ func rangeLeaves(v ssa.Value) []ssa.Value {
 		}
 	}
 	rec(v, 0)
+	return out
+}
+
+// staticCallSitesAny: the static call sites of fn found through its referrers-free scan of the whole program (fn's own
+// program is reached through its package).
+func staticCallSitesAny(fn *ssa.Function) ([]ssa.CallInstruction, bool) {
+	if fn == nil || fn.Prog == nil {
+		return nil, false
+	}
+	var out []ssa.CallInstruction
+	for _, pkg := range fn.Prog.AllPackages() {
+		for _, m := range pkg.Members {
+			f, ok := m.(*ssa.Function)
+			if !ok {
+				if t, isT := m.(*ssa.Type); isT {
+					for _, typ := range []types.Type{t.Type(), types.NewPointer(t.Type())} {
+						ms := fn.Prog.MethodSets.MethodSet(typ)
+						for i := 0; i < ms.Len(); i++ {
+							if mf := fn.Prog.MethodValue(ms.At(i)); mf != nil {
+								out = append(out, callsTo(mf, fn)...)
+							}
+						}
+					}
+				}
+				continue
+			}
+			out = append(out, callsTo(f, fn)...)
+		}
+	}
+	return out, len(out) > 0
+}
+
+func callsTo(in *ssa.Function, target *ssa.Function) []ssa.CallInstruction {
+	var out []ssa.CallInstruction
+	var scan func(f *ssa.Function)
+	scan = func(f *ssa.Function) {
+		for _, b := range f.Blocks {
+			for _, i := range b.Instrs {
+				if ci, ok := i.(ssa.CallInstruction); ok && ci.Common().StaticCallee() == target {
+					out = append(out, ci)
+				}
+			}
+		}
+		for _, af := range f.AnonFuncs {
+			scan(af)
+		}
+	}
+	scan(in)
 	return out
 }
